@@ -40,7 +40,7 @@ MANIFEST = dict(
               "differential correspondence on generated databases and histories + gids.c and timer.c linked together "
               "under a virtual clock with SIGHUPs parked inside refreshes + independent Python evaluation of the property")
 
-WRAP = ["-Wl,--wrap=getgrent_r,--wrap=setgrent,--wrap=endgrent,--wrap=getpwnam_r,--wrap=stat,--wrap=time"]
+WRAP = ["-Wl,--wrap=getgrent_r,--wrap=setgrent,--wrap=endgrent,--wrap=getpwnam_r,--wrap=stat,--wrap=lstat,--wrap=time"]
 SENT = 0xFFFFFFFF
 GRBUF_INIT = 1024
 GID_HASH = 2053
